@@ -176,8 +176,8 @@ static void directed_limit(unsigned limit, mon::Rng& rng)
 }
 
 // ------------------------------------------------------------------ part B
-template<typename SbxT, typename MakeSandbox>
-static void owner_histories(const char* where, MakeSandbox&& make, bool bounded, mon::Rng& rng)
+template<typename SbxT, typename MakeSandbox, typename Recreate>
+static void owner_histories(const char* where, MakeSandbox&& make, Recreate&& recreate, bool bounded, mon::Rng& rng)
 {
   using sbx_t = rlbox_sandbox<SbxT>;
   using AP = app_pointer<int*, SbxT>;
@@ -199,6 +199,10 @@ static void owner_histories(const char* where, MakeSandbox&& make, bool bounded,
     std::string hist;
     auto fail = [&](const char* cls, const std::string& d) { report(where, cls, mon::fmt("history [%s]: %s", hist.c_str(), d.c_str())); };
     bool dead = false;
+    // after the sandbox object went through destroy/create the token pointers are formed the way the sandbox hands them
+    // back: the token, translated relative to the memory of the current incarnation
+    bool recycled = false;
+    auto forge = [&](uint64_t tok) { tainted<int*, SbxT> t = nullptr; t.assign_raw_pointer(sb, reinterpret_cast<int*>(base + tok)); return t; };
     for (int s = 0; s < steps && !dead; s++) {
       int o = rng.below(NO), o2 = rng.below(NO);
       int op = rng.below(7);
@@ -274,6 +278,17 @@ static void owner_histories(const char* where, MakeSandbox&& make, bool bounded,
           } else mon::hit("self-move-assign");
           break;
         }
+        case 6: { // the sandbox object is destroyed and created again; the owners live on ("until its owner unregisters or is destroyed")
+          if (rng.below(4)) break;
+          hist += "recycle-sandbox ";
+          bool ab = mon::aborts([&] { sb.destroy_sandbox(); recreate(sb); });
+          if (ab) { fail("destroy-create-with-live-owners-aborts", ""); dead = true; break; }
+          base = reinterpret_cast<uintptr_t>(sb.get_memory_location());
+          total = sb.get_total_memory();
+          recycled = true;
+          mon::hit("sandbox-recycled-with-live-owners");
+          break;
+        }
         default: break;
       }
       if (dead) break;
@@ -287,7 +302,7 @@ static void owner_histories(const char* where, MakeSandbox&& make, bool bounded,
         }
         if (model[i].live) {
           int* got = nullptr;
-          bool ab = mon::aborts([&] { got = sb.lookup_app_ptr(owner[i]->to_tainted()); });
+          bool ab = mon::aborts([&] { got = sb.lookup_app_ptr(recycled ? forge(model[i].tok) : owner[i]->to_tainted()); });
           if (ab || got != model[i].ptr) { fail("lookup-of-live-token-wrong", mon::fmt("owner %d token %llu resolves to %p, registered %p", i, (unsigned long long)model[i].tok, (void*)got, (void*)model[i].ptr)); dead = true; break; }
           n_lookup_ok++;
         }
@@ -295,7 +310,7 @@ static void owner_histories(const char* where, MakeSandbox&& make, bool bounded,
       for (auto& r : released) {
         if (dead) break;
         if (live.count(r.second)) continue; // token legitimately reused since
-        bool ab = mon::aborts([&] { sb.lookup_app_ptr(r.first); });
+        bool ab = mon::aborts([&] { sb.lookup_app_ptr(recycled ? forge(r.second) : r.first); });
         if (!ab) {
           fail(mon::fmt("released-token-still-resolves/%s", r.cause).c_str(), mon::fmt("token %llu was released (%s) but lookup still succeeds", (unsigned long long)r.second, r.cause));
           dead = true;
@@ -363,7 +378,7 @@ int main(int argc, char** argv)
     static vsbx_library lib;
     lib.id = 1;
     VS::region_size = 4096;
-    owner_histories<VS>("owners-model", [&] { auto s = std::make_unique<rlbox_sandbox<VS>>(); s->create_sandbox(&lib); return s; }, true, rng);
+    owner_histories<VS>("owners-model", [&] { auto s = std::make_unique<rlbox_sandbox<VS>>(); s->create_sandbox(&lib); return s; }, [&](rlbox_sandbox<VS>& x) { x.create_sandbox(&lib); }, true, rng);
     // an application object that happens to be a function pointer (T = int (*)(int), the app pointer is a data pointer to it):
     // registration succeeds like for any other object, the token resolves to it, and a refused registration leaks no token
     {
@@ -453,7 +468,7 @@ int main(int argc, char** argv)
       held.clear();
       s->destroy_sandbox();
     }
-    owner_histories<rlbox_noop_sandbox>("owners-noop", [&] { auto s = std::make_unique<rlbox_sandbox<rlbox_noop_sandbox>>(); s->create_sandbox(); return s; }, false, rng);
+    owner_histories<rlbox_noop_sandbox>("owners-noop", [&] { auto s = std::make_unique<rlbox_sandbox<rlbox_noop_sandbox>>(); s->create_sandbox(); return s; }, [&](rlbox_sandbox<rlbox_noop_sandbox>& x) { x.create_sandbox(); }, false, rng);
   }
   mon::evals(n_trans);
   mon::hit("full-table-registration-aborts", n_full_abort);
